@@ -154,6 +154,9 @@ func GenHistory(t *rapid.T, o GenOpts) []Op {
 			delete(pending, lab)
 		case o.Data && k < 42:
 			ln := dataLens[rapid.IntRange(0, len(dataLens)-1).Draw(t, "dlen")]
+			if rapid.IntRange(0, 15).Draw(t, "big-block") == 7 {
+				ln = rapid.SampledFrom([]int{255, 256, 257, 260, 300, 511, 512, 1000}).Draw(t, "dlen-big") // lengths that do not fit a byte
+			}
 			add(Op{Kind: "data", V: uint32(ln), Seed: rapid.Uint32().Draw(t, "dseed")})
 		case o.Comments && k < 48:
 			var txt string
@@ -163,6 +166,9 @@ func GenHistory(t *rapid.T, o GenOpts) []Op {
 				txt = rapid.StringOfN(rapid.RuneFrom(printable), 0, 40, -1).Draw(t, "ctext")
 			}
 			add(Op{Kind: "comment", Text: txt})
+			if rapid.IntRange(0, 4).Draw(t, "comment-twice") == 0 {
+				add(Op{Kind: "comment", Text: txt}) // the same separator line twice in a row
+			}
 		case o.Assume && k < 54:
 			kind := rapid.SampledFrom([]string{"assume_sep", "assume_rep"}).Draw(t, "assume")
 			add(Op{Kind: kind, V: uint32(rapid.SampledFrom([]byte{0x30, 0x20, 0x10, 0x01, 0xff, 0xcf}).Draw(t, "amask"))})
@@ -202,12 +208,14 @@ func GenHistory(t *rapid.T, o GenOpts) []Op {
 	return ops
 }
 
-// printable ASCII: comments and labels contain no line breaks (domain of the properties)
+// printable characters: comments and labels contain no line breaks (domain of the properties)
 var printable = func() []rune {
 	var r []rune
 	for c := rune(0x20); c < 0x7f; c++ {
 		r = append(r, c)
 	}
+	// text is UTF-8: a few characters beyond ASCII (their low bytes include $0A, $22 and $20)
+	r = append(r, 'é', 'ü', 'ß', '→', 'Ċ', '日', '€', 'Ġ', 'Ģ')
 	return r
 }()
 
